@@ -1,13 +1,13 @@
 """C03 codec memory safety and totality.  Kernel part: the real tokenizers extract_element / extract_element_fixed_width
-(leaf wrappers) on fully symbolic input with output buffers of exactly the callers' capacity; object part (thorough):
-extract_header / extract_trailer / extract_element(f8String) and the factory driver of the codec world (props/codec.py)."""
+(leaf wrappers) on fully symbolic input with output buffers of exactly the callers' capacity; object part (codec.add_c03_objects):
+Message::factory's message-table lookup (C03_mtype) and termination of decode_group's element loop (C03_gloop) over the token-level decoder world."""
 import os
 from vf.core import *
 from props import codec
 FUNK = ['FIX8::MessageBase::extract_element(const char*, unsigned, char*, char*)', 'FIX8::MessageBase::extract_element_fixed_width']
 
 def run(ctx):
-    kf = codec.kfs('C03'); defs = kf_defines(kf) + codec.kf_defines_for(ctx, 'C06')     # the fixed-width harness also meets C06's separator finding
+    kf = codec.kfs('C03'); defs = kf_defines(kf)
     roots = ['vf_extract_element', 'vf_extract_element_fw']
     # the wrappers call the extractors the way decode/decode_group do (no explicit capacity): the verification build scales
     # FIX8_MAX_FLD_LENGTH to the harness capacity, so a capacity-aware extractor (default = FIX8_MAX_FLD_LENGTH) sees the real bound
